@@ -6,7 +6,9 @@
    target = export of the best path when filterpath lets it through, nothing otherwise. *)
 From Coq Require Import List ZArith Bool.
 From Verif Require Import Decision.Model Speaker.Model Speaker.Lemmas Speaker.ViewProofs.
-From Verif Require Reset.Model Reset.Proofs.
+From Verif Require Reset.Model Reset.Proofs Speaker.Atomic Generated.C01Atomic.
+From Coq Require Import String.
+Open Scope string_scope.
 Import ListNotations.
 Open Scope Z_scope.
 
@@ -69,3 +71,12 @@ Theorem C01_view_exact_under_policy :
   forall k, Reset.Model.r_view s q k = Reset.Model.tgt ev g Ee qc k (Reset.Model.best_of g peers (Reset.Model.r_rib s) k).
 Proof. exact @Reset.Proofs.view_exact_under_policy. Qed.
 Print Assumptions C01_view_exact_under_policy.
+
+(* ---- the atomicity the model's "one event at a time" rests on, read from the source on every run
+   (Generated/C01Atomic.v: the lock operations and calls of BgpServer.propagateUpdate in order): the Loc-RIB update
+   (rib.Update) and the fan-out (propagateUpdateToNeighbors) sit in one critical section of the destination's
+   propagation bucket, and the fan-out is never called outside such a section *)
+Theorem C01_update_and_fanout_in_one_critical_section :
+  Atomic.in_one_section "bucket" "Update" "propagateUpdateToNeighbors" C01Atomic.propagate_update_seq = true.
+Proof. vm_compute. reflexivity. Qed.
+Print Assumptions C01_update_and_fanout_in_one_critical_section.
